@@ -1,5 +1,7 @@
+import Std.Data.HashMap
 import Driver.Common
 import Driver.OpsBits
+import Driver.OpsCode
 open Panqec
 
 /-! Line protocol: one operation per input line, one output line per input line.
@@ -7,21 +9,31 @@ open Panqec
     (`none` = not my op); the first that answers wins. -/
 
 def handlers : List (List String → Option String) :=
-  [Drv.handleBits]
+  [Drv.handleBits, Drv.handleCode]
 
-def handle (line : String) : String :=
-  let toks := (line.trimAscii.toString.splitOn " ").filter (· ≠ "")
+def handleToks (toks : List String) : String :=
   match handlers.findSome? (fun h => h toks) with
   | some r => r
   | none => "bad-op"
 
-partial def loop (h : IO.FS.Stream) (out : IO.FS.Stream) : IO Unit := do
+/-- `set NAME value` stores a token; later tokens `$NAME` are replaced by it
+    (keeps long matrices out of repeated lines). -/
+partial def loop (h : IO.FS.Stream) (out : IO.FS.Stream)
+    (vars : Std.HashMap String String) : IO Unit := do
   let line ← h.getLine
   if line.isEmpty then return ()
-  out.putStrLn (handle line)
-  loop h out
+  let toks := (line.trimAscii.toString.splitOn " ").filter (· ≠ "")
+  match toks with
+  | ["set", name, value] =>
+    out.putStrLn "ok"
+    loop h out (vars.insert name value)
+  | _ =>
+    let toks := toks.map fun t =>
+      if t.startsWith "$" then (vars.get? (t.drop 1).toString).getD t else t
+    out.putStrLn (handleToks toks)
+    loop h out vars
 
 def main : IO Unit := do
   let out ← IO.getStdout
-  loop (← IO.getStdin) out
+  loop (← IO.getStdin) out {}
   out.flush
